@@ -5,7 +5,7 @@ PATCH=$(readlink -f "$1"); ID=$2; TIER=${3:-quick}
 cd /verif
 if ! git -C /repo diff --quiet; then echo "/repo is dirty, refusing"; exit 3; fi
 git -C /repo apply "$PATCH" || { echo "patch does not apply"; exit 3; }
-./check "$ID" --tier "$TIER" 2>&1 | grep -v "^$" | tail -12
+./check "$ID" --tier "$TIER" 2>&1 | grep -a -v "^$" | tail -12
 RC=$?
 git -C /repo checkout -- . 
 git -C /repo status --short | grep -v '^??' 
